@@ -12,6 +12,8 @@ pub struct Parser<'a> {
     position: usize,
     #[allow(dead_code)]
     source: &'a str,
+    /// Current nesting depth of recursive grammar rules (see `enter_nested`).
+    nesting_depth: usize,
 }
 
 impl<'a> Parser<'a> {
@@ -20,10 +22,25 @@ impl<'a> Parser<'a> {
         let mut lexer = Lexer::new(source);
         let tokens = lexer.tokenize();
         Self {
+            nesting_depth: 0,
             tokens,
             position: 0,
             source,
         }
+    }
+
+    /// Maximum nesting depth of recursive grammar rules.
+    const MAX_NESTING_DEPTH: usize = 128;
+
+    /// Enters a recursive grammar rule. Recursive descent uses one chain of stack
+    /// frames per nesting level, so input that nests too deeply is rejected with an
+    /// error instead of overflowing the stack.
+    fn enter_nested(&mut self) -> Result<()> {
+        if self.nesting_depth >= Self::MAX_NESTING_DEPTH {
+            return Err(self.error("Query nesting is too deep"));
+        }
+        self.nesting_depth += 1;
+        Ok(())
     }
 
     /// Parses the document.
@@ -180,6 +197,13 @@ impl<'a> Parser<'a> {
     }
 
     fn parse_type(&mut self) -> Result<Type> {
+        self.enter_nested()?;
+        let result = self.parse_type_inner();
+        self.nesting_depth -= 1;
+        result
+    }
+
+    fn parse_type_inner(&mut self) -> Result<Type> {
         let base_type = if self.check(TokenKind::LBracket) {
             self.advance();
             let inner = self.parse_type()?;
@@ -199,6 +223,13 @@ impl<'a> Parser<'a> {
     }
 
     fn parse_selection_set(&mut self) -> Result<SelectionSet> {
+        self.enter_nested()?;
+        let result = self.parse_selection_set_inner();
+        self.nesting_depth -= 1;
+        result
+    }
+
+    fn parse_selection_set_inner(&mut self) -> Result<SelectionSet> {
         self.expect(TokenKind::LBrace)?;
 
         let mut selections = Vec::new();
@@ -333,6 +364,13 @@ impl<'a> Parser<'a> {
     }
 
     fn parse_input_value(&mut self) -> Result<InputValue> {
+        self.enter_nested()?;
+        let result = self.parse_input_value_inner();
+        self.nesting_depth -= 1;
+        result
+    }
+
+    fn parse_input_value_inner(&mut self) -> Result<InputValue> {
         let token = self.advance_token()?;
         match token.kind {
             TokenKind::Dollar => {
